@@ -132,6 +132,10 @@ enum Dev {
     Operate,
     /// nothing is forwarded while the clock advances to the next timer (network stall)
     Stall,
+    /// a burst of updates: binary 0 once, then binary 1 until its type overflows (discarding
+    /// binary 0's only event), then analog and counter events to one below capacity -- enough for a
+    /// multi-fragment event response whose overflow indication is gone by the last fragment
+    Burst,
     /// the connection dies on the master's side only; the outstation's session is replaced by
     /// the next connection (half-open TCP connection)
     HalfOpen,
@@ -143,6 +147,9 @@ struct Corner {
     small: bool,
     events: u16,
     close: bool,
+    /// a periodic class 1/2/3 poll every 5 s; without it the mirror depends on unsolicited
+    /// reporting (and on the integrity polls the master schedules itself)
+    poll: bool,
 }
 
 pub struct C02 {
@@ -172,8 +179,9 @@ impl C02 {
 impl Scenario for C02 {
     fn name(&self) -> String {
         format!(
-            "unsol{}-{}-events{}-{}-slots{}-dev{}",
+            "unsol{}{}-{}-events{}-{}-slots{}-dev{}",
             self.corner.unsol as u8,
+            if self.corner.poll { "" } else { "-nopoll" },
             if self.corner.small { "249" } else { "2048" },
             self.corner.events,
             if self.corner.close { "close" } else { "discard" },
@@ -224,7 +232,7 @@ impl Scenario for C02 {
             res.violation = Some(Violation::new("C02.P0", "setup", "add_association".to_string()));
             return res;
         };
-        {
+        if c.poll {
             let mut a2 = assoc.clone();
             pair.call_now("add_poll", async move { a2.add_poll(ReadRequest::class_scan(Classes::class123()), Duration::from_secs(5)).await.is_ok() });
         }
@@ -254,6 +262,29 @@ impl Scenario for C02 {
                             discarded.push(dd);
                         }
                         _ => {}
+                    }
+                    pair.pump();
+                }
+                Dev::Burst => {
+                    deviations += 1;
+                    let n = self.corner.events as usize;
+                    let mut plan: Vec<Pt> = vec![Pt::Binary0];
+                    plan.extend(std::iter::repeat(Pt::Binary1).take(n + 1));
+                    // the other types stay one below capacity: once the binary events are confirmed
+                    // no type is full any more and the overflow indication disappears
+                    plan.extend(std::iter::repeat(Pt::Analog0).take(n - 1));
+                    plan.extend(std::iter::repeat(Pt::Counter0).take(n - 1));
+                    for pt in plan {
+                        let k = applied.get(&pt).copied().unwrap_or(0) + 1;
+                        applied.insert(pt, k);
+                        match pair.ohandle.transaction(|db| update(db, pt, k)) {
+                            UpdateInfo::Created(id) => created.push((pt, k, id)),
+                            UpdateInfo::Overflow { created: id, discarded: dd } => {
+                                created.push((pt, k, id));
+                                discarded.push(dd);
+                            }
+                            _ => {}
+                        }
                     }
                     pair.pump();
                 }
@@ -447,23 +478,28 @@ fn alphabet(tier: &str) -> Vec<Dev> {
 
 fn scenarios(tier: &str) -> Vec<C02> {
     let corners_quick = [
-        Corner { unsol: true, small: true, events: 2, close: true },
-        Corner { unsol: false, small: false, events: 10, close: true },
-        Corner { unsol: true, small: false, events: 10, close: false },
-        Corner { unsol: false, small: true, events: 2, close: false },
+        // unsolicited reporting only (no periodic poll)
+        Corner { unsol: true, small: true, events: 2, close: true, poll: false },
+        Corner { unsol: false, small: false, events: 10, close: true, poll: true },
+        Corner { unsol: true, small: false, events: 10, close: false, poll: true },
+        Corner { unsol: false, small: true, events: 2, close: false, poll: true },
     ];
+    // bursts that overflow a type and need several fragments to report
+    let burst_corner = Corner { unsol: false, small: true, events: 10, close: true, poll: true };
+    let burst_alphabet = vec![Dev::Default, Dev::Burst, Dev::Stall, Dev::Cut, Dev::Upd(Pt::Binary0), Dev::O2mFirstByte];
     let mut v = Vec::new();
     if tier == "quick" {
         for c in corners_quick {
             v.push(C02 { corner: c, slots: 12, max_dev: 2, alphabet: alphabet(tier) });
         }
         v.push(C02 { corner: corners_quick[0], slots: 8, max_dev: 3, alphabet: alphabet(tier) });
+        v.push(C02 { corner: burst_corner, slots: 10, max_dev: 2, alphabet: burst_alphabet });
     } else {
         for unsol in [false, true] {
             for small in [false, true] {
                 for events in [2u16, 10] {
                     for close in [false, true] {
-                        let c = Corner { unsol, small, events, close };
+                        let c = Corner { unsol, small, events, close, poll: !unsol || close };
                         v.push(C02 { corner: c, slots: 12, max_dev: 2, alphabet: alphabet(tier) });
                     }
                 }
@@ -473,6 +509,8 @@ fn scenarios(tier: &str) -> Vec<C02> {
             v.push(C02 { corner: c, slots: 12, max_dev: 3, alphabet: alphabet("quick") });
         }
         v.push(C02 { corner: corners_quick[0], slots: 8, max_dev: 4, alphabet: alphabet("quick") });
+        v.push(C02 { corner: burst_corner, slots: 12, max_dev: 3, alphabet: burst_alphabet.clone() });
+        v.push(C02 { corner: Corner { unsol: true, ..burst_corner }, slots: 12, max_dev: 3, alphabet: burst_alphabet });
     }
     v
 }
